@@ -2,6 +2,7 @@
    Only statements; proofs in Proofs/ClockProofs.v. *)
 From Coq Require Import QArith List Bool.
 From Pamiq Require Import Model.Clock Proofs.ClockProofs.
+From Pamiq Require Proofs.LockSerial.
 Import ListNotations.
 Open Scope Q_scope.
 
@@ -61,3 +62,16 @@ Print Assumptions C06_refuted_D5.
 Theorem C06_nonvacuous : outs_eqb (srun (sinit 1000 0) nv_ops)
   [ONone; ONone; ONone; OQ 1004; ONone; ONone; OQ 1004; ONone; OQ 1004; ONone; OQ (1005); ONone; OQ 2; OQ 104; OErr] = true.
 Proof. exact nv_outputs. Qed.
+
+(* "Concurrent callers always observe values of one single clock": every public method of TimeController runs
+   under one re-entrant lock, and for ANY set of threads, ANY programs of lock-protected operations (each a list of
+   micro-steps on the shared state) and EVERY schedule, whenever the lock is free the shared state is exactly the
+   sequential run of the operations in the order in which they took the lock; nobody but the holder changes it.
+   (Generic theorem, Proofs/LockSerial.v; the line-level runs check on the real time.py that the interleaved
+   outputs equal the sequential model in lock-acquisition order.) *)
+Theorem C06_every_interleaving_is_serial : forall (Sh : Type) (s0 : Sh) progs sched s,
+  Pamiq.Proofs.LockSerial.run Sh (Pamiq.Proofs.LockSerial.init Sh s0 progs) sched = Some s ->
+  Pamiq.Proofs.LockSerial.holder Sh s = None ->
+  Pamiq.Proofs.LockSerial.sh Sh s = Pamiq.Proofs.LockSerial.run_ops Sh (Pamiq.Proofs.LockSerial.done Sh s) s0.
+Proof. exact Pamiq.Proofs.LockSerial.every_interleaving_is_serial. Qed.
+Print Assumptions C06_every_interleaving_is_serial.
